@@ -347,12 +347,14 @@ func clip(s string) string {
 func expectProp(mut string) string {
 	switch mut {
 	case "mac-flip-cur", "mac-flip-next", "mac-wrong-key", "segid-flip", "ts-change", "exp-change",
-		"expired-cur", "expired-next":
+		"expired-cur", "expired-next", "currinf-peer-mismatch":
 		return "C01"
 	case "src-local-ext", "dst-local-notlast", "dst-other-last", "src-other-first", "wrong-sibling",
-		"dummy-hop-spoof", "src-host-kind":
+		"dummy-hop-spoof", "src-host-kind", "transit-local-src-wrong-link":
 		return "C05"
-	case "egress-zero-internal", "egress-unknown", "egress-sibling-from-inside", "seq-first", "seq-second":
+	case "alert-foreign-flag-xover":
+		return "C07"
+	case "egress-zero-internal", "egress-unknown", "egress-sibling-from-inside", "seq-first", "seq-second", "table-seg-start":
 		return "C06"
 	}
 	return ""
